@@ -291,3 +291,64 @@ func verifC16_two_closers() {
 	c.CloseNow()
 	vObserve("two-closers", localFirst, nClose)
 }
+
+// C16.queued-writer: a data writer is queued on the frame lock behind a Close frame that a slow peer is still taking;
+// then the peer takes it. Every interleaving at synchronisation operations (preemption bound) of the closer's way out of
+// writeFrame with the writer's way in: nothing but control frames follows the Close frame on the wire.
+func verifC16_queued_writer() {
+	client := vParam("client", 1) == 1
+	vInstallRand()
+	t := vNewTransport(nil)
+	t.endMode = vEndBlock
+	t.holdAt = 1
+	c := vNewConn(t, client, nil, 16, 64)
+	how := vChoose("closedBy", 2)
+	vClassify("close", []string{"local-Close", "error-close-from-the-reader"}[how])
+	cdone := make(chan struct{})
+	if how == 0 {
+		go func() {
+			c.Close(StatusNormalClosure, "")
+			close(cdone)
+		}()
+	} else {
+		bad := vFrame{fin: true, opcode: 3, masked: !client}
+		if bad.masked {
+			copy(bad.key[:], vBytes("key", 4))
+		}
+		t.vFeed(vEncodeFrame(bad))
+		go func() {
+			c.Read(vBG)
+			close(cdone)
+		}()
+	}
+	vGhostSettle() // the Close frame's transport write is held
+	wdone := make(chan error, 1)
+	go func() {
+		ctx, cancel := context.WithTimeout(vBG, 3*time.Second)
+		defer cancel()
+		wdone <- c.Write(ctx, MessageText, vBytes("x", 1))
+	}()
+	vGhostSettle() // the writer is queued on the frame lock
+	vGhostExplore(vParam("preempt", 1))
+	close(t.release)
+	<-wdone
+	vGhostExploreOff()
+	<-cdone
+	vReach("C16.queued.done")
+	frames, ok := vParseWritten(t.out)
+	vAssert(ok, "C16.queued.wellformed")
+	seenClose := false
+	good := true
+	for _, f := range frames {
+		if seenClose && (f.opcode < 8 || f.opcode == 8) {
+			good = false
+		}
+		if f.opcode == 8 {
+			seenClose = true
+		}
+	}
+	vAssert(seenClose, "C16.queued.close-frame-sent")
+	vAssert(good, "C16.seq.nothing-after-close")
+	c.CloseNow()
+	vObserve("c16queued", how, len(frames))
+}
